@@ -33,7 +33,7 @@ CHECKS["C13"] = dict(
     level=E,
     rule="every factory call Projector(d,i), Identity(d), Generator(d,k), PosProjector(d,k), NegProjector(d,k) for d=2..6 and every admissible index, "
          "compared entry-wise with the dense 0/1 matrix; plus idempotence/orthogonality/completeness products; a case is non-trivial when the expected "
-         "operator is non-zero, distinct = distinct (factory,d,index) Every call also after a burst of unrelated library calls, and all 310 calls once more from a namespace-scope initialiser linked before the library (calls during static initialisation).",
+         "operator is non-zero, distinct = distinct (factory,d,index) Every call also after a burst of unrelated library calls, and all 310 calls once more from a namespace-scope initialiser linked before the library (calls during static initialisation). Results modified in place / consumed as temporaries and the call repeated (independence of results); every allocation point of every factory call refused once, then all factories re-checked.",
     assumptions=["reference GGM basis in harness/ref.hpp (layout as stated in C01)", "index k=d of Pos/NegProjector accepted as identity or exception"],
     runs=[run("c13", "c13.cpp"), run("c13_asan", "c13.cpp", "asan")],
 )
@@ -53,7 +53,7 @@ CHECKS["C02"] = dict(
     rule="d=2..6; every ordered pair of basis vectors (reads every structure constant) through construction, assignment over stale content, += ; "
          "bilinearity on all two-hot x two-hot pairs with two coefficient sets (quick: d<=4, and two-hot x basis for d=5,6; thorough: all d); 10x10 probe pairs incl. 1e+-100 rescalings; "
          "operator*, SUTrace<0>, SUTrace<AlignedStorage>. Oracle: i(AB-BA), AB+BA, Tr(AB) from dense reference matrices (bilinear extension of the reference tables), two-sided, full output vector. "
-         "non-trivial = both operands non-zero; distinct by operand hash",
+         "non-trivial = both operands non-zero; distinct by operand hash Guarantee-wrapped commutators with aliasing destinations; owner/view aliasing; externally backed operands at every 8-byte offset; subnormal x huge operands before and after a refused solver call; floating-point mode word compared at the end.",
     assumptions=["finite inputs", "values outside the alphabet covered through bilinearity (checked on the two-hot grid)"],
     runs=[run("c02", "c02.cpp"), run("c02_asan", "c02.cpp", "asan", args=["--reduced"])],
 )
@@ -91,7 +91,7 @@ CHECKS["C12"] = dict(
     level=E,
     rule="d=2..6; zero, every generator, every two-hot e_i+e_j and e_i+2e_j, every diagonal matrix over {0,1,2}^d (projectors, multiples of identity, all degeneracy patterns), rank-one matrices from six unit vectors, "
          "dense probes (and 1e+-100 rescalings), rotated degenerate and near-degenerate spectra (eps in {0,1e-6,1e-9,1e-12}, two fixed unitaries); both order flags. "
-         "Self-certifying oracle: finite, |V^dagger V-1|<=1e-10, |MV-V diag L|<=1e-9|M|, ascending when ordered. non-trivial = non-zero input; distinct by component hash and order flag",
+         "Self-certifying oracle: finite, |V^dagger V-1|<=1e-10, |MV-V diag L|<=1e-9|M|, ascending when ordered. non-trivial = non-zero input; distinct by component hash and order flag Identity and traceless parts of independent magnitudes (1e-308..3e300); separated levels with couplings 1e-6..1e-14.",
     assumptions=["inputs outside the structured families are not enumerated"],
     runs=[run("c12", "c12.cpp"), run("c12_asan", "c12.cpp", "asan", args=["--reduced"])],
 )
@@ -102,7 +102,7 @@ CHECKS["C07"] = dict(
          "{0,1e-8, 24 (thorough 60) log-spaced values in [1e-4,50], the five Pade thresholds +-1%, and 100/300/1e3 for the anti-Hermitian/normal families}; three estimator RNG seeds (separate runs); "
          "all 15625 ordered call triples over 25 (size, norm band) representatives on one thread; UTransform(V,i s) for V over generators, two-hot and probes, s in {0,+-0.3,1,-2.5,10}, every d incl. 2. "
          "Oracle: long-double scaling-and-squaring Taylor reference; relative 1-norm error <= 256 eps max(1,|A|) kappa (kappa=1 for normal families, |e^|A||/|e^A| otherwise); any exception is a violation. "
-         "non-trivial = non-zero matrix / s != 0",
+         "non-trivial = non-zero matrix / s != 0 Kernel-structured families (zero row sums, decoupled levels); every case also from/into strided windows; large multiples of difference projectors in UTransform.",
     assumptions=["matrices outside the seven families and norm grid are not enumerated", "reference conditioning estimate for non-normal inputs"],
     runs=[run("c07_s0", "c07.cpp"), run("c07_s1", "c07.cpp", seed_offset=1), run("c07_s2", "c07.cpp", seed_offset=2), run("c07_asan", "c07.cpp", "asan", args=["--reduced"])],
 )
@@ -132,7 +132,7 @@ CHECKS["C14"] = dict(
     rule="one forked child per case under ASan+UBSan: all 20 ordered pairs d1!=d2 x 25 binary entry points (4 '+' overloads, 2 '-', scalar product, iCommutator, ACommutator, 4 ElementwiseOperation overloads, "
          "ElementwiseProduct, += / -= with vector and with proxies, Evolve(op,t) by construction / = / += / -=, Rotate(matrix)) x {own, external storage}; constructors and factories for d in {1,7,8}; "
          "matrices r x c for r,c in 1..8 (non-square or unsupported); component lists of every length 1..64 that is not a supported square; factory indices up to d*d+2. "
-         "Oracle: a std::exception is thrown, every operand (and the red zone after external buffers) is bit-identical afterwards, no sanitizer report. Scalar products also between expression results and through SUTrace. distinct by case description",
+         "Oracle: a std::exception is thrown, every operand (and the red zone after external buffers) is bit-identical afterwards, no sanitizer report. Scalar products also between expression results and through SUTrace. distinct by case description Expression-by-expression evolutions incl. t=+-0; guarantee-wrapped compound assignments; operands that were the source of a move assignment; rejected matrix shapes as views into larger blocks.",
     assumptions=["SUTrace called directly and UTransform(SU_vector) are not in the statement's list", "dimension 0 is not in the statement's window"],
     runs=[run("c14_asan", "c14.cpp", "asan", shards=16)],
 )
@@ -153,7 +153,7 @@ CHECKS["C10"] = dict(
     technique="explicit enumeration of all operation histories up to a depth on the real solver objects, checked step by step against a piecewise closed-form reference model",
     rule="alphabet of 19 operations {Evolve(0|0.3|0.7), toggle each of the 5 term switches, Set_AnyNumerics(false|true), stepper rkf45|rk4|msadams, toggle adaptive, toggle tolerance, move-construct, "
          "move-assign into a fresh and into a used solver (other dimensions), re-ini} on a Probe solver (nx=2, nsun in {2,3}, 1 rho, 1 scalar); every history up to depth 3 under ASan and depth 4 in the shipped build (quick) / additionally all depth-5 "
-         "histories with >=2 Evolve (thorough); no state merging (values matter); a state is a history, a transition an operation application checked by the oracle",
+         "histories with >=2 Evolve (thorough); no state merging (values matter); a state is a history, a transition an operation application checked by the oracle Alphabet extended by Evolve(5e-4), toggle-h_min(1e-3), toggle-h_max(0.05); a refused Evolve may be followed by re-ini; used assignee with loose, different settings.",
     assumptions=["closed-form reference (commuting diagonal terms)", "msadams only in adaptive mode", "moved-from solvers are destroyed immediately (and their problem description poisoned first)"],
     runs=[run("c10_asan", "c10.cpp", "asan", shards=16, args=["--depth", "3"], tiers=("quick",)),
           run("c10_d4q", "c10.cpp", "prod", shards=16, args=["--depth", "4", "--deadline", "600"], tiers=("quick",)),
@@ -205,7 +205,7 @@ CHECKS["C16"] = dict(
     rule=HIST_NOTE + " plus the wide alphabet of C15 (conversions, factories, GetComponents, rotations, ...). For every transition (abstract pre-state, operation) of the search a dry run counts the N allocation points "
          "(operator new[] and scalar operator new reached from library code), then N runs fail exactly the k-th with std::bad_alloc. Oracle: bad_alloc propagates; every vector other than the assignment target is bit-identical; "
          "fresh allocations never receive a block some vector still references; every vector (including the target) can be reassigned and destroyed; ledger: no double / foreign delete[], nothing live after teardown. "
-         "evaluations = injected runs, distinct = distinct (abstract pre-state, operation, k)",
+         "evaluations = injected runs, distinct = distinct (abstract pre-state, operation, k) Second enumerator c16f.cpp: element-wise operations with a callable whose copies allocate, 5 statement forms x 4 operand categories x d=2..6 x cold/warm cache, every allocation point (scalar and array new) refused once, own ledger.",
     assumptions=["GSL's malloc failures are outside the statement (bad_alloc only)", "allocation points that do not occur on a run because library-internal thread-local scratch is already warm are skipped",
                  "2 slots + 1 buffer to closure (quick), 3 slots + 2 buffers (thorough)"],
     runs=[run("c16_callable", "c16f.cpp", "asan"),   # element-wise operations with a callable whose copies allocate: every allocation point refused once
